@@ -399,6 +399,25 @@ def world_pair(rng, tn=None, sn=None, kind=None, third=False):
     return cw
 
 
+def world_twins(rng):
+    """two source datasets of the same shape linked in the same way to the reference: requests that
+    differ only in the *identity* of `data` (or of `target_data`, when a twin is the reference)"""
+    tn = rng.randint(1, 3)
+    sn = rng.randint(1, tn)
+    sshape = rand_shape(sn, rng)
+    ds = [mk_ds(rand_shape(tn, rng), 2, rng, 10), mk_ds(sshape, 2, rng, 100), mk_ds(sshape, 2, rng, 200)]
+    axes = list(range(tn))
+    rng.shuffle(axes)
+    links = []
+    for k in range(sn):
+        a, b = rng.choice(SCALES), rng.choice(OFFSETS)
+        for s_ in (1, 2):
+            links.append(["same", 0, axes[k], s_, k] if a == 1 and b == 0 else ["aff", 0, axes[k], s_, k, a, b])
+    cw = {"ds": ds, "links": links, "states": []}
+    cw["states"] = std_states(cw, rng)
+    return cw
+
+
 def world_lin(rng):
     """source axis 0 is a combination of two target axes; optionally a dependency on a main
     component (→ Exception)."""
@@ -518,7 +537,8 @@ def worlds_stream(tier, rng):
     yield world_wcs(rng, 3, coupled=True)
     yield world_lin(rng)
     yield world_pair(rng, third=True)
-    k = 60 if quick else 900
+    yield world_twins(rng)
+    k = 150 if quick else 1500
     for _ in range(k):
         r = rng.random()
         if r < 0.1:
@@ -527,8 +547,10 @@ def worlds_stream(tier, rng):
             yield world_pair(rng)
         elif r < 0.7:
             yield world_pair(rng, third=True)
-        elif r < 0.85:
+        elif r < 0.82:
             yield world_wcs(rng, coupled=rng.random() < 0.3)
+        elif r < 0.92:
+            yield world_twins(rng)
         else:
             yield world_lin(rng)
 
@@ -622,6 +644,21 @@ def mutate_req(cw, req, rng, cids):
     elif r < 0.55 and bounds:                             # another range / scalar ↔ range
         i = rng.randrange(len(bounds))
         bounds[i] = rand_bound(tshape[i] if i < len(tshape) else 2, rng)
+    elif r < 0.60 and bounds:                             # scalar s ↔ the one-sample range (s, s, 1)
+        i = rng.randrange(len(bounds))
+        b = bounds[i]
+        bounds[i] = ["r", b[1], b[1], 1] if b[0] == "s" else ["s", b[1]]
+    elif r < 0.66 and nds > 2:                            # the same request on / in the frame of a twin
+        twins = [j for j in range(nds) if j != d and cw["ds"][j]["shape"] == cw["ds"][d]["shape"]]
+        if twins:
+            d2 = rng.choice(twins)
+            if what[0] in ("c", "px") and what[1] == d:
+                what = [what[0], d2, what[2]]
+            elif what[0] == "st" and what[1] // 5 == d:
+                what = ["st", 5 * d2 + what[1] % 5]
+            if t == d:
+                t = d2
+            d = d2
     elif r < 0.72:                                        # another attribute / selection
         what = rand_what(cw, d, rng)
     elif r < 0.82 and nds > 1:                            # other datasets
@@ -632,6 +669,8 @@ def mutate_req(cw, req, rng, cids):
             t = rng.randrange(nds)
         bounds = rand_bounds(cw, t, rng)
         what = rand_what(cw, d, rng)
+    elif r < 0.85 and what[0] == "st" and what[1] % 5 in (0, 1):   # equal content, another object
+        what = ["st", what[1] - what[1] % 5 + (1 - what[1] % 5)]
     elif r < 0.88:
         bc = not bc
     elif r < 0.94:
@@ -820,7 +859,7 @@ class Img(_Base):
 
     def worlds(self, tier, rng):
         quick = tier == "quick"
-        for _ in range(25 if quick else 400):
+        for _ in range(70 if quick else 700):
             r = rng.random()
             if r < 0.15:
                 yield world_self(rng, rng.randint(2, 3))
@@ -930,6 +969,6 @@ class Img(_Base):
 PROP = Property(
     id="C16",
     title="A fixed-resolution buffer equals nearest-pixel resampling through the links",
-    theorems=["C16.rne_nearest", "C16.nearest_candidates", "C16.nearest_unique_off_ties", "C16.frb_pointwise", "C16.frb_accepted", "C16.frb_defined_iff", "C16.frb_answer_accepted", "C16.frb_indep_irrelevant_scalar", "C16.wildcard_key_exact", "C16.frb_indep_irrelevant_scalars", "C16.dimensions_correct", "C16.world_leaf_wf", "C16.w2p_node_wf", "C16.cache_step_sound", "C16.cache_sound", "C16.cache_sound_from", "C16.slice_to_bound_positions", "C16.selection_edited_in_place_stale", "C16.data_changed_in_place_stale", "C16.slice_to_bound_pinned_wrong"],
+    theorems=["C16.rne_nearest", "C16.nearest_candidates", "C16.nearest_unique_off_ties", "C16.frb_pointwise", "C16.frb_accepted", "C16.frb_defined_iff", "C16.frb_answer_accepted", "C16.frb_indep_irrelevant_scalar", "C16.wildcard_key_exact", "C16.frb_indep_irrelevant_scalars", "C16.dimensions_correct", "C16.world_leaf_wf", "C16.w2p_node_wf", "C16.cache_step_sound", "C16.cache_sound", "C16.cache_sound_from", "C16.slice_to_bound_positions", "C16.sliced_request_denotes", "C16.selection_edited_in_place_stale", "C16.data_changed_in_place_stale", "C16.slice_to_bound_pinned_wrong"],
     families=[Single(), Seq(), Img()],
 )
